@@ -102,7 +102,7 @@ class WebEnv:
         self.master = webmaster.WebMaster(o, with_termlog=False)
         self.app = self.master.app
         self.view = self.master.view
-        self.password = self.master.addons.get("webauth")._password
+        self._webauth = self.master.addons.get("webauth")
         self.auth_cookie_name = self.app.settings["auth_cookie_name"]()
         self.cookie_secret = self.app.settings["cookie_secret"]
         self.xsrf_cookie_name = self.app.settings["xsrf_cookie_name"]
@@ -112,6 +112,11 @@ class WebEnv:
         self.server.add_sockets(socks)
         self._base_options = {k: getattr(self.master.options, k) for k in self.master.options.keys()}
         self.reset()
+
+    @property
+    def password(self):
+        """the token mitmweb generated for itself (changes whenever web_password is reconfigured to "")"""
+        return self._webauth._password
 
     def close(self):
         async def _c():
